@@ -101,6 +101,8 @@ pub struct FsState {
     pub dir_created: bool,
     /// never inject the planned fault into flush/sync calls (end-to-end scenarios that need every batch to be retryable)
     pub spare_sync: bool,
+    /// a stalled destination: every filesystem call from the `after`-th on blocks while the gate is closed
+    pub gate: Option<Arc<Gate>>,
 }
 
 #[derive(Clone, Default)]
@@ -114,9 +116,37 @@ fn err(msg: &str) -> io::Error {
     io::Error::new(io::ErrorKind::Other, msg.to_string())
 }
 
+/// A latch the harness owns: while it is closed the filesystem (= the destination) makes no progress.
+pub struct Gate {
+    pub closed: Mutex<bool>,
+    pub cv: std::sync::Condvar,
+    /// calls with a lower index pass even while the gate is closed
+    pub after: usize,
+}
+
+impl Gate {
+    pub fn new(after: usize) -> Arc<Gate> {
+        Arc::new(Gate { closed: Mutex::new(true), cv: std::sync::Condvar::new(), after })
+    }
+    pub fn open(&self) {
+        *self.closed.lock().unwrap() = false;
+        self.cv.notify_all();
+    }
+}
+
 impl Fs {
     /// common prologue: records the op, applies crash/err faults; returns Err if the op must fail
     fn begin(&self, kind: OpKind, path: &Path, len: usize) -> Result<(usize, Option<FaultKind>), io::Error> {
+        let gate = {
+            let g = self.0.lock().unwrap();
+            g.gate.clone().filter(|gate| g.log.len() >= gate.after)
+        };
+        if let Some(gate) = gate {
+            let mut closed = gate.closed.lock().unwrap();
+            while *closed {
+                closed = gate.cv.wait(closed).unwrap();
+            }
+        }
         let mut g = self.0.lock().unwrap();
         let idx = g.log.len();
         let (gen, attempt) = (g.gen, g.attempt);
